@@ -1,8 +1,324 @@
+/-
+Driver mode `c12`: decide, for every transaction of a harness case, whether the connector/junction
+structure the real libavoid produced satisfies C12.  All structural verdicts come from the proven
+checkers of `AdaptaVerif.Check.Tree` (`isTreeWithLeaves`, `liveConsistent`, `disjoint`); the code
+here only parses, numbers the vertices, slices the global graph per hyperedge and words the
+diagnostics.  Line formats: see the header of `harness/c12.cpp`.
+-/
 import Driver.Proto
+import AdaptaVerif.Check.Tree
 namespace Driver.C12
+open Driver AdaptaVerif.Num AdaptaVerif.Check.Tree
 
-def run (_args : List String) : IO UInt32 := do
-  IO.eprintln "driver mode c12: not implemented yet"
-  return 2
+structure Conn where
+  id : String
+  e1 : String
+  e2 : String
+  n : Nat := 0
+  first : Option (Rat × Rat) := none
+  last : Option (Rat × Rat) := none
+  deriving Inhabited
+
+structure Junc where
+  id : String
+  pos : Rat × Rat
+  rcm : Rat × Rat
+  nattached : Nat
+  deriving Inhabited
+
+/-- failure kinds, most specific / least expected first: the verdict message starts with the first
+    kind present, so that a case is only ever attributed to a known defect class when nothing
+    else is wrong with it -/
+def kindOrder : List String :=
+  ["parse", "lists-inconsistent", "deleted-junction-not-freed", "cycle", "hyperedges-merged",
+   "terminal-dropped", "orphan-object", "route-end-mismatch", "dangling-junction",
+   -- kinds that the unmodified library produces on generated scenes (finding candidates, see report):
+   "attached-to-deleted-junction", "crash", "disconnected", "rerouted-route-misses-terminal",
+   "empty-route", "unattached-end", "leak"]
+
+def kindRank (k : String) : Nat := (kindOrder.findIdx? (· == k)).getD 0
+
+/-- intern a name -/
+def intern (tbl : Array String) (s : String) : Array String × Nat :=
+  match tbl.findIdx? (· == s) with
+  | some i => (tbl, i)
+  | none => (tbl.push s, tbl.size)
+
+/-- object ids are decimal; `tmpN` (created and destroyed inside one transaction) gets a number
+    that cannot clash with a real id -/
+def idNum (step : Nat) (s : String) : Nat :=
+  match s.toNat? with
+  | some n => n
+  | none => 4000000000 + 1000 * step + (s.drop 3).toString.toNat?.getD 0
+
+def pt? (a b : String) : Option (Rat × Rat) := do
+  let x ← num? a
+  let y ← num? b
+  pure (x, y)
+
+def parseConn (l : Array String) : Conn :=
+  -- l = [s, id, e1, e2, n, x0, y0, xl, yl]
+  let n := nat! (l[4]?.getD "0")
+  { id := l[1]?.getD "?", e1 := l[2]?.getD "E", e2 := l[3]?.getD "E", n := n,
+    first := if n > 0 then pt? (l[5]?.getD "") (l[6]?.getD "") else none,
+    last := if n > 0 then pt? (l[7]?.getD "") (l[8]?.getD "") else none }
+
+def stepLines (c : Case) (key : String) (s : Nat) : Array (Array String) :=
+  (c.get key).filter (fun l => l.size > 0 && nat! l[0]! == s)
+
+/-- one BFS round per edge is enough to saturate a component; diagnostics and slicing only -/
+def component (edges : List Edge) (start : Nat) : List Nat := Id.run do
+  let mut comp : List Nat := [start]
+  for _ in [0:edges.length + 1] do
+    for (a, b) in edges do
+      if comp.contains a && !comp.contains b then comp := b :: comp
+      if comp.contains b && !comp.contains a then comp := a :: comp
+  return comp
+
+/-- how far (Chebyshev) a route end may sit from the junction it is attached to: the largest
+    `idealNudgingDistance` the generator uses -/
+def junctionSlack : Rat := 25
+
+def isJ (s : String) : Bool := s.startsWith "J"
+def isT (s : String) : Bool := s.startsWith "T"
+
+structure Fail where
+  kind : String
+  msg : String
+  deriving Inhabited
+
+structure StepState where
+  conns : List Nat          -- live connector ids
+  juncs : List Nat          -- effective live junction ids
+  pending : List Nat        -- junctions reported deleted by the last transaction (router frees them in the next one)
+
+def checkCase (c : Case) : CaseResult := Id.run do
+  let mut fails : Array Fail := #[]
+  let mut stats : List (String × Nat) := []
+  let hedges : Array (List String) := (c.get "hedge").map (fun l => (l.extract 1 l.size).toList)
+  let plain : List String := ((c.get "plain").map (fun l => l[0]?.getD "")).toList
+  -- state before the first transaction = the harness's own input description
+  let mut st : StepState := {
+    conns := ((c.get "iconn").map (fun l => idNum 0 (l[0]?.getD ""))).toList,
+    juncs := ((c.get "junction").map (fun l => idNum 0 (l[0]?.getD ""))).toList,
+    pending := [] }
+  let nsteps := (c.get "done").size
+  let mut nontrivial := false
+  let mut rerouted : List String := []     -- connectors created by HyperedgeRerouter so far
+  let mut s := 1
+  while s ≤ nsteps do
+    -- ---------------------------------------------------------------- parse the step
+    let conns : List Conn := ((stepLines c "conn" s).map parseConn).toList
+    let mut juncs : List Junc := []
+    for l in stepLines c "junc" s do
+      match pt? (l[2]?.getD "") (l[3]?.getD ""), pt? (l[4]?.getD "") (l[5]?.getD "") with
+      | some p, some q => juncs := juncs ++ [{ id := l[1]?.getD "?", pos := p, rcm := q, nattached := nat! (l[7]?.getD "0") }]
+      | _, _ => fails := fails.push ⟨"parse", s!"step {s}: junction line {l}"⟩
+    let mut newJ : List Nat := []
+    let mut newC : List Nat := []
+    let mut delJ : List Nat := []
+    let mut delC : List Nat := []
+    for l in stepLines c "nd" s do
+      if (l[1]?.getD "").startsWith "rr" && l[2]?.getD "" == "newc" then
+        rerouted := rerouted ++ (l.extract 3 l.size).toList
+      let ids := ((l.extract 3 l.size).map (idNum s)).toList
+      match l[2]?.getD "" with
+      | "newj" => newJ := newJ ++ ids
+      | "newc" => newC := newC ++ ids
+      | "delj" => delJ := delJ ++ ids
+      | "delc" => delC := delC ++ ids
+      | _ => pure ()
+    if !(newJ.isEmpty && newC.isEmpty && delJ.isEmpty && delC.isEmpty) then nontrivial := true
+    stats := bumpStats stats "transactions" 1
+    stats := bumpStats stats "objects.new" (newJ.length + newC.length)
+    stats := bumpStats stats "objects.deleted" (delJ.length + delC.length)
+    -- ---------------------------------------------------------------- live objects vs reported lists
+    let connIds := conns.map (fun k => idNum s k.id)
+    let juncRaw := juncs.map (fun j => idNum s j.id)
+    let juncEff := juncRaw.filter (fun j => !delJ.contains j)
+    if !liveConsistent st.conns newC delC connIds then
+      fails := fails.push ⟨"lists-inconsistent", s!"step {s}: connectors after={connIds} before={st.conns} new={newC} deleted={delC}"⟩
+    if !liveConsistent st.juncs newJ delJ juncEff then
+      fails := fails.push ⟨"lists-inconsistent", s!"step {s}: junctions after={juncEff} before={st.juncs} new={newJ} deleted={delJ}"⟩
+    if !(delC.all (fun x => st.conns.contains x || newC.contains x) && delJ.all (fun x => st.juncs.contains x || newJ.contains x)) then
+      fails := fails.push ⟨"lists-inconsistent", s!"step {s}: an object reported deleted was neither alive before nor reported new: delc={delC} delj={delJ}"⟩
+    if !disjoint juncRaw st.pending then
+      fails := fails.push ⟨"deleted-junction-not-freed", s!"step {s}: junctions {st.pending} were reported deleted one transaction ago but are still in the router: {juncRaw}"⟩
+    -- ---------------------------------------------------------------- the global multigraph
+    let effJ : List String := (juncs.filter (fun j => juncEff.contains (idNum s j.id))).map (fun j => "J" ++ j.id)
+    let mut tbl : Array String := #[]
+    let mut listed : List Nat := []          -- vertices that exist: live junctions, terminal attachments, free ends
+    for nm in effJ do
+      let (t, i) := intern tbl nm; tbl := t
+      listed := i :: listed
+    -- every terminal the hyperedges had before gets a vertex number, attached or not
+    for terms in hedges do
+      for t in terms do
+        let (t', _) := intern tbl t; tbl := t'
+    let mut edges : List Edge := []
+    let mut edgeConn : List String := []
+    for k in conns do
+      if plain.contains k.id then continue
+      let mut ends : List Nat := []
+      for (e, tagc) in [(k.e1, "a"), (k.e2, "b")] do
+        if isJ e then
+          let (t, i) := intern tbl e; tbl := t
+          ends := ends ++ [i]                -- listed only if the junction is alive
+        else if isT e then
+          let (t, i) := intern tbl e; tbl := t
+          if !listed.contains i then listed := i :: listed
+          ends := ends ++ [i]
+        else
+          let (t, i) := intern tbl s!"free-end-{tagc}-of-connector-{k.id}"; tbl := t
+          listed := i :: listed
+          ends := ends ++ [i]
+          fails := fails.push ⟨"unattached-end", s!"step {s}: connector {k.id} ({k.e1} -> {k.e2}) has an end that is attached to nothing"⟩
+      edges := edges ++ [(ends[0]!, ends[1]!)]
+      edgeConn := edgeConn ++ [k.id]
+    let name (i : Nat) : String := tbl[i]?.getD "?"
+    for k in conns do
+      if plain.contains k.id then continue
+      for e in [k.e1, k.e2] do
+        if isJ e && !effJ.contains e then
+          fails := fails.push ⟨"attached-to-deleted-junction", s!"step {s}: connector {k.id} ({k.e1} -> {k.e2}) is attached to junction {e}, which {if juncRaw.contains (idNum s (e.drop 1).toString) then "the router reported as deleted in this transaction (it is freed by the next one)" else "is not in the router"}"⟩
+    -- ---------------------------------------------------------------- per hyperedge: tree with the same terminals
+    let mut covered : List Nat := []
+    let mut comps : List (List Nat) := []
+    let mut h := 0
+    for terms in hedges do
+      let tIdx : List Nat := terms.map (fun t => (tbl.findIdx? (· == t)).getD 0)
+      let missing := terms.filter (fun t => !listed.contains ((tbl.findIdx? (· == t)).getD 0))
+      if !missing.isEmpty then
+        fails := fails.push ⟨"terminal-dropped", s!"step {s} hyperedge {h}: no connector is attached to terminal(s) {missing}"⟩
+      match tIdx with
+      | [] => pure ()
+      | t0 :: _ =>
+        let t0 := (tIdx.find? (fun t => listed.contains t)).getD t0
+        let comp := component edges t0
+        let verts := comp.filter (fun v => listed.contains v)
+        let es := edges.filter (fun e => comp.contains e.1 || comp.contains e.2)
+        -- the proven check, against the full terminal set the hyperedge had before
+        let ok := isTreeWithLeaves es verts tIdx
+        stats := bumpStats stats "hyperedge.checks" 1
+        stats := bumpStats stats s!"hyperedge.size.{min (es.length / 4 * 4) 24}" 1
+        if !ok then
+          -- diagnostics (wording only; the verdict above is the proven checker's)
+          let mut explained := false
+          let deadEnds := comp.filter (fun v => !listed.contains v)
+          if !deadEnds.isEmpty then explained := true     -- reported above as attached-to-deleted-junction
+          let unreached := tIdx.filter (fun t => !comp.contains t)
+          if !unreached.isEmpty then
+            explained := true
+            fails := fails.push ⟨"disconnected", s!"step {s} hyperedge {h}: terminals {unreached.map name} are not connected to {name t0}"⟩
+          let badLeaves := verts.filter (fun v => deg es v == 1 && !tIdx.contains v && isJ (name v))
+          if !badLeaves.isEmpty then
+            explained := true
+            fails := fails.push ⟨"dangling-junction", s!"step {s} hyperedge {h}: junction(s) {badLeaves.map name} have a single connector (a leaf that is not a terminal)"⟩
+          let otherT := verts.filter (fun v => isT (name v) && !tIdx.contains v)
+          if !otherT.isEmpty then
+            explained := true
+            fails := fails.push ⟨"hyperedges-merged", s!"step {s} hyperedge {h}: reaches foreign terminal(s) {otherT.map name}"⟩
+          let nonLeafT := tIdx.filter (fun t => deg es t != 1 && comp.contains t)
+          if !nonLeafT.isEmpty then
+            explained := true
+            fails := fails.push ⟨"cycle", s!"step {s} hyperedge {h}: terminal(s) {nonLeafT.map name} carry {nonLeafT.map (deg es)} connectors"⟩
+          if deadEnds.isEmpty && unreached.isEmpty && es.length + 1 != verts.length then
+            explained := true
+            fails := fails.push ⟨"cycle", s!"step {s} hyperedge {h}: {es.length} connectors on {verts.length} vertices (cycle, parallel or self-loop connector)"⟩
+          let free := verts.filter (fun v => (name v).startsWith "free-end")
+          if !free.isEmpty then explained := true     -- already reported as unattached-end
+          if !explained then
+            fails := fails.push ⟨"cycle", s!"step {s} hyperedge {h}: structure rejected by isTreeWithLeaves: edges={es} verts={verts.map name}"⟩
+        if !disjoint comp covered then
+          fails := fails.push ⟨"hyperedges-merged", s!"step {s}: hyperedge {h} shares objects with an earlier hyperedge"⟩
+        covered := covered ++ comp
+        comps := comps ++ [comp]
+      h := h + 1
+    -- every live junction / hyperedge connector belongs to one of the hyperedges
+    let orphans := listed.filter (fun v => !covered.contains v)
+    if !orphans.isEmpty then
+      let oj := orphans.filter (fun v => isJ (name v))
+      let lonely := oj.filter (fun v => deg edges v == 0)
+      if !lonely.isEmpty then
+        fails := fails.push ⟨"orphan-object", s!"step {s}: live junction(s) {lonely.map name} without any connector, not reported deleted"⟩
+      else
+        fails := fails.push ⟨"disconnected", s!"step {s}: objects {orphans.map name} are not connected to the terminals of any hyperedge"⟩
+    -- ---------------------------------------------------------------- routes
+    let pins := stepLines c "pinpos" s
+    let pinPts (t : String) : List (Rat × Rat) := Id.run do
+      let mut r : List (Rat × Rat) := []
+      for l in pins do
+        if l[1]?.getD "" == t then
+          let mut i := 2
+          while i + 1 < l.size do
+            match pt? l[i]! l[i+1]! with
+            | some p => r := r ++ [p]
+            | none => pure ()
+            i := i + 2
+      return r
+    let boxes := stepLines c "tbox" s
+    let inBox (t : String) (p : Rat × Rat) : Bool :=
+      boxes.any (fun l => l[1]?.getD "" == t &&
+        (match nums? (l.extract 2 6) with
+         | some v => v[0]! ≤ p.1 && p.1 ≤ v[2]! && v[1]! ≤ p.2 && p.2 ≤ v[3]!
+         | none => false))
+    let cheb (p q : Rat × Rat) : Rat := max (absRat (p.1 - q.1)) (absRat (p.2 - q.2))
+    -- level 0 = exactly at the attached object's position (junction: position() or
+    -- recommendedPosition(); terminal: position of a pin of that class);
+    -- level 1 = at the object up to the documented slack (junction: within `junctionSlack` of it,
+    -- orthogonal nudging runs after the hyperedge code and shifts end segments; terminal: on or
+    -- inside the shape the pin belongs to); level 2 = somewhere else
+    let endLevel (e : String) (p : Rat × Rat) : Nat :=
+      if isJ e then
+        match juncs.find? (fun j => "J" ++ j.id == e) with
+        | some j => if p == j.rcm || p == j.pos then 0
+                    else if cheb p j.rcm ≤ junctionSlack || cheb p j.pos ≤ junctionSlack then 1 else 2
+        | none => 2
+      else if isT e then (if (pinPts e).contains p then 0 else if inBox e p then 1 else 2)
+      else 0
+    for k in conns do
+      if plain.contains k.id then continue
+      match k.first, k.last with
+      | some a, some b =>
+        let fwd := max (endLevel k.e1 a) (endLevel k.e2 b)
+        let rev := max (endLevel k.e1 b) (endLevel k.e2 a)
+        let lvl := min fwd rev
+        if fwd ≤ rev then stats := bumpStats stats "route.forward" 1
+        else stats := bumpStats stats "route.reversed" 1
+        if lvl == 0 then stats := bumpStats stats "route.ends-exact" 1
+        else if lvl == 1 then stats := bumpStats stats "route.ends-within-slack" 1
+        else
+          let jinfo := juncs.filter (fun j => "J" ++ j.id == k.e1 || "J" ++ j.id == k.e2)
+          let js := jinfo.map (fun j => s!"J{j.id}@({ratToString j.rcm.1},{ratToString j.rcm.2}) pos=({ratToString j.pos.1},{ratToString j.pos.2})")
+          -- which end is off?  (in the better of the two orientations)
+          let (pa, pb) := if fwd ≤ rev then (a, b) else (b, a)
+          let junctionEndOff := (isJ k.e1 && endLevel k.e1 pa == 2) || (isJ k.e2 && endLevel k.e2 pb == 2)
+          let kind := if !junctionEndOff && rerouted.contains k.id then "rerouted-route-misses-terminal" else "route-end-mismatch"
+          fails := fails.push ⟨kind, s!"step {s}: connector {k.id} ({k.e1} -> {k.e2}) route runs ({ratToString a.1},{ratToString a.2}) .. ({ratToString b.1},{ratToString b.2}); attached: {js} pins {(pinPts k.e1 ++ pinPts k.e2).map (fun p => s!"({ratToString p.1},{ratToString p.2})")}"⟩
+      | _, _ =>
+        fails := fails.push ⟨"empty-route", s!"step {s}: connector {k.id} ({k.e1} -> {k.e2}) has a display route of {k.n} points"⟩
+    -- ---------------------------------------------------------------- next
+    st := { conns := connIds, juncs := juncEff, pending := delJ.filter (fun j => juncRaw.contains j) }
+    s := s + 1
+  if (c.get "leak").size > 0 then
+    fails := fails.push ⟨"leak", "LeakSanitizer reported a leak after this case's router was deleted (see harness stderr; C15 matter)"⟩
+  match c.get1 "crash" with
+  | some l => fails := fails.push ⟨"crash", s!"the library aborted inside transaction {nsteps + 1} (sanitizer report / failed assertion, harness child exit status {l[0]?.getD "?"}); replay the case to see it (C15 matter)"⟩
+  | none =>
+    if nsteps == 0 then
+      fails := fails.push ⟨"parse", "no completed transaction in the case"⟩
+  stats := bumpStats stats s!"steps.{nsteps}" 1
+  if fails.isEmpty then
+    return { verdict := .ok, nontrivial := nontrivial, stats := stats }
+  else
+    let sorted := fails.toList.mergeSort (fun a b => kindRank a.kind ≤ kindRank b.kind)
+    let kinds := (sorted.map (·.kind)).eraseDups
+    let first := sorted.head!
+    for k in kinds do stats := bumpStats stats ("fail." ++ k) 1
+    return { verdict := .specfail s!"{first.kind}: {first.msg} [all kinds: {kinds}; {fails.size} findings]",
+             nontrivial := nontrivial, stats := stats }
+
+def run (_args : List String) : IO UInt32 :=
+  runCases checkCase
 
 end Driver.C12
